@@ -59,6 +59,12 @@ CLAIMED = {
          "plus AddressInPoolAndExclusive on every address handed out (so a pool that leaks is also seen as an illegal refusal).",
          "BESS datapath only so far (UP4 pools are part of C04/C15 once built); heartbeat / time-out endings use short timers (60 ms / 1 s). " + TRUST,
          "5 C05"),
+ "C07": ("TLA+ R-spec Pfcp (SeidLegal, TeidLegal, image of CHOOSE PDRs): TLC judges every establishment of the real agent under adversarial SEID-source outputs, TEID cursor wrap-around and concurrent bursts",
+         "The guarded hooks feed the per-association random source with adversarial sequences (immediate repeat, repeat of a deleted session's id, zero, 99 and 100 consecutive collisions) and position the TEID cursor "
+         "around the 32-bit wrap and on values in use; bursts of concurrent CHOOSE establishments from 2-6 associations are sent at once. TLC checks on every accepted establishment SeidFreshPerAssociation "
+         "(non-zero, not live in the association), TeidNonZeroAndUnique (against every TEID chosen and not yet released, across associations) and ReportedEqualsProgrammed (pdrLookup entries carry the reported SEID and TEIDs).",
+         "The retry budget itself is not asserted (refusal is legal in the R-spec whenever the source collided); exhaustion of the TEID space is out of reach at the implementation. " + TRUST,
+         "5 C07"),
 }
 
 def hooks_commits():
